@@ -180,6 +180,8 @@ def records_for(inst, seed=0):
         rec = dict(base, api=api, **empty)
         try:
             rec.update(fn())
+        except core.MachineryError:
+            raise
         except Exception as e:  # the call raised: a verdict for the spec ("no-error" clause), not a machinery failure
             rec["err"] = f"{ename(e)}: {str(e)[:120]}"
         recs.append(rec)
@@ -283,24 +285,84 @@ def records_for(inst, seed=0):
     for kind in ("basis", "fraction", "dense", "signed"):
         guarded("matrix", matrix(kind), kind=kind, m=[], out=[])
 
+    # ---------------- kernels with a history ---------------------------------------------------------
+    HISTORIES = ("fresh", "scaled", "negated", "added", "item-assigned")
+
+    def kernel_with_history(target, unit, mode):
+        """A Kernel2D whose values are exactly `target` (2D floats on the lattice `unit`).  "fresh": straight from the
+        constructor.  Otherwise a BASE kernel with different values is first used in both whole-frame convolutions and
+        in a SimulatorImaging run, and the judged kernel is derived from it by ordinary array arithmetic (exact on
+        the lattice): 2.0 * base, -base, base + ndarray, or a copy with one entry assigned."""
+        import copy
+
+        if mode == "fresh":
+            return aa.Kernel2D.no_mask(values=target, pixel_scales=ps)
+        j = int(rng.integers(0, target.size))
+        if mode == "scaled":
+            basev = target / 2.0
+        elif mode == "negated":
+            basev = -target
+        elif mode == "added":
+            basev = target - unit
+        else:
+            basev = target.copy()
+            basev.flat[j] += 3 * unit
+        base = aa.Kernel2D.no_mask(values=basev, pixel_scales=ps)
+        # the base kernel is used: whole-frame convolutions and one simulation (of a blank image: any sign of kernel)
+        warm = aa.Array2D.no_mask(values=rng.integers(-3, 4, size=(h, w)).astype(float), pixel_scales=ps)
+        base.convolved_array_from(array=warm)
+        base.convolved_array_with_mask_from(array=warm.native, mask=mask)
+        aa.SimulatorImaging(exposure_time=1.0, psf=base, normalize_psf=False, add_poisson_noise_to_data=False,
+                            include_poisson_noise_in_noise_map=False, noise_if_add_noise_false=1.0,
+                            noise_seed=1).via_image_from(image=aa.Array2D.no_mask(values=np.zeros((h, w)), pixel_scales=ps))
+        if mode == "scaled":
+            d = 2.0 * base
+        elif mode == "negated":
+            d = -base
+        elif mode == "added":
+            d = base + np.full(target.size, unit)
+        else:
+            d = copy.copy(base)
+            d[j] = float(target.flat[j])
+        if not isinstance(d, aa.Kernel2D) or not np.array_equal(np.array(d.native), target):
+            raise core.MachineryError(f"gamma: kernel derived by '{mode}' does not hold the intended values")
+        return d
+
     # ---------------- whole-frame convolution (Kernel2D) ------------------------------------------
     def whole_frame():
+        mode = HISTORIES[int(rng.integers(0, len(HISTORIES)))]
+        rec = {"history": mode}
+        kd = kernel_with_history(Kf, KS, mode)
         nat = rng.integers(-8, 9, size=(h, w))
         arr = aa.Array2D.no_mask(values=nat.astype(float) * IS, pixel_scales=ps)
-        out = kern.convolved_array_from(array=arr)
-        outm = kern.convolved_array_with_mask_from(array=arr.native, mask=mask)
-        return {"img": nat.ravel().astype(int).tolist(), "out": alpha(np.array(out.native).ravel(), KS * IS),
-                "outm": alpha(np.array(outm.slim), KS * IS)}
+        out = kd.convolved_array_from(array=arr)
+        outm = kd.convolved_array_with_mask_from(array=arr.native, mask=mask)
+        # the masked convolver of the very same kernel object, fed with the same native image
+        convd = aa.Convolver(mask=mask, kernel=kd)
+        bmask = mask.derive_mask.blurring_from(kernel_shape_native=(kh, kw))
+        outc = convd.convolve_image(image=aa.Array2D(values=arr.native, mask=mask), blurring_image=aa.Array2D(values=arr.native, mask=bmask))
+        rec.update({"img": nat.ravel().astype(int).tolist(), "out": alpha(np.array(out.native).ravel(), KS * IS),
+                    "outm": alpha(np.array(outm.slim), KS * IS), "outc": alpha(np.array(outc.slim), KS * IS)})
+        return rec
 
-    guarded("whole_frame", whole_frame, img=[], out=[], outm=[])
+    guarded("whole_frame", whole_frame, history="", img=[], out=[], outm=[], outc=[])
 
     # ---------------- simulate (noise off) -> apply mask -> fit with the generating image ----------
     def simfit():
         kraw, q = pow2_kernel(kh, kw, rng if inst.get("random") else None)
-        psf = aa.Kernel2D.no_mask(values=np.array(kraw, dtype=float).reshape(kh, kw), pixel_scales=ps)
+        mode = HISTORIES[int(rng.integers(0, len(HISTORIES)))]
+        rec = {"k": kraw, "history": mode}
+        if mode == "fresh":
+            # unnormalised kernel from the constructor; simulator and dataset normalise it (exact: the sum is 2^p)
+            psf = aa.Kernel2D.no_mask(values=np.array(kraw, dtype=float).reshape(kh, kw), pixel_scales=ps)
+            normalize = True
+        else:
+            # unit-sum kernel derived from a used base kernel; the simulator takes it as it is
+            psf = kernel_with_history(np.array(kraw, dtype=float).reshape(kh, kw) / q, 1.0 / q, mode)
+            normalize = False
         nat = rng.integers(0, 9, size=(h, w))
         image = aa.Array2D.no_mask(values=nat.astype(float), pixel_scales=ps)
-        sim = aa.SimulatorImaging(exposure_time=1.0, psf=psf, normalize_psf=True, add_poisson_noise_to_data=False,
+        sim = aa.SimulatorImaging(exposure_time=1.0, psf=psf, normalize_psf=normalize, add_poisson_noise_to_data=False,
                                   include_poisson_noise_in_noise_map=False, noise_if_add_noise_false=1.0, noise_seed=1)
         dataset = sim.via_image_from(image=image)
         masked = dataset.apply_mask(mask=mask)
@@ -311,10 +373,11 @@ def records_for(inst, seed=0):
         data = np.array(masked.data.slim)
         model = np.array(model.slim)
         rz = bool(data.shape == model.shape and np.all(data - model == 0.0))
-        return {"k": kraw, "img": nat.ravel().astype(int).tolist(), "data": alpha(data, 1.0 / q), "model": alpha(model, 1.0 / q),
-                "resid_zero": rz}
+        rec.update({"img": nat.ravel().astype(int).tolist(), "data": alpha(data, 1.0 / q), "model": alpha(model, 1.0 / q),
+                    "resid_zero": rz})
+        return rec
 
-    guarded("simfit", simfit, img=[], data=[], model=[], resid_zero=False)
+    guarded("simfit", simfit, history="", img=[], data=[], model=[], resid_zero=False)
     for r in recs:
         r["variant"] = inst.get("variant", "random")
     return recs
@@ -369,7 +432,7 @@ def random_instances(rng, n, max_side=9):
 # validation
 # ------------------------------------------------------------------------------------------------
 def describe(rec):
-    s = f"{rec['api']}{'/' + rec['kind'] if 'kind' in rec else ''} on {rec['h']}x{rec['w']} frame, kernel {rec['kh']}x{rec['kw']} " \
+    s = f"{rec['api']}{'/' + rec['kind'] if 'kind' in rec else ''}{'/' + rec['history'] + '-kernel' if rec.get('history') else ''} on {rec['h']}x{rec['w']} frame, kernel {rec['kh']}x{rec['kw']} " \
         f"k={rec.get('k')}, unmasked={rec['u']} ({rec.get('variant', '')} instance)"
     if rec.get("err"):
         s += f" raised {rec['err']}"
@@ -462,7 +525,7 @@ def replay(ctx, rp):
     rec = rp["record"]
     inst = rp.get("instance") or {"h": rec["h"], "w": rec["w"], "kh": rec["kh"], "kw": rec["kw"], "u": rec["u"],
                                    "kern": rec.get("k"), "even": rec["api"] == "even", "variant": rec.get("variant")}
-    recs = [r for r in records_for(inst, ctx.seed) if r["api"] == rec["api"] and r.get("kind") == rec.get("kind")]
+    recs = [r for r in records_for(inst, ctx.seed) if r["api"] == rec["api"] and r.get("kind") == rec.get("kind")]  # same rng stream -> same history
     for r in recs:
         r["inst"] = 0
     rej = validate(ctx, recs, [inst], "C03-replay")
